@@ -1,7 +1,7 @@
 """Property id -> check function."""
 import json
 
-from . import props_pool, props_router, props_plugins, props_relay, props_pause, props_shutdown, props_reload
+from . import props_pool, props_router, props_plugins, props_relay, props_pause, props_shutdown, props_reload, props_prepared
 
 CHECKS = {
     'C01': props_pool.check,
@@ -16,6 +16,7 @@ CHECKS = {
     'C16': props_pause.check_c16,
     'C17': props_shutdown.check_c17,
     'C14': props_reload.check_c14,
+    'C08': props_prepared.check_c08,
 }
 
 
